@@ -142,7 +142,8 @@ def CASES(tier, seed):
             ops = [o for o in opsA if tuple(o) in sel and tuple(o) != ('ipurge_zeros', 'cutoff')]
         if quick:  # Tier A quick: core selection (every variant runs in Tier B and in the thorough tier)
             sel = CHOOSE_OPS if (cb['subset'] == 'choose' or st['mods'][0] == 3) else CORE_OPS
-            ops = [o for o in ops if tuple(o) in sel and not (tuple(o) == ('ipurge_zeros', 'cutoff') and st['mods'][0] != 1)]
+            # ipurge_zeros/cutoff (norm > cutoff on sqrt variables, then a consumer) occasionally hangs z3 beyond the case limit: Tier B / C01 only
+            ops = [o for o in ops if tuple(o) in sel and tuple(o) != ('ipurge_zeros', 'cutoff')]
         target = 1 if cb['subset'] == 'choose' else 9
         for ci, chunk in enumerate(P1._balanced(ops, P1.COST_A, target)):
             cases.append(dict(name=f"A[mod={st['mods']},qconj={[l['qconj'] for l in st['legs']]},{cb['subset']},{cb['prestate']},"
